@@ -1,7 +1,7 @@
 #!/bin/bash
 # runs every reverted-fix mutant against the checks of the properties it is recorded under
 cd /verif
-declare -A MAP=( [f4725de]=C09,C06 [0f7dbde]=C08 [1403992]=C10,C07,C15 [f5b67e2]=C18 [349662f]=C18 [d96b300]=C18 [fe5f3e0]=C24 [10afffb]=C23,C22 [ef26e36]=C22 [f0c574f]=C02 [d8985fd]=C05,C03 [b621d2e]=C01,C04 [d3e94af]=C15 [6481e22]=C16,C15 [e8fab12]=C13 [b12ce65]=C17 [6499fcc]=C19 [612e1d8]=C19 [677cedc]=C19 [e9e6e9e]=C19 [5a78e46]=C20,C12 [2ffab26]=C21 [6b232db]=C21 [fe0302b]=C21 [be4d68b]=C24 )
+declare -A MAP=( [f4725de]=C09,C06 [0f7dbde]=C08 [1403992]=C10,C07,C15 [f5b67e2]=C18 [349662f]=C18 [d96b300]=C18 [fe5f3e0]=C24 [10afffb]=C23,C22 [ef26e36]=C22 [f0c574f]=C02 [d8985fd]=C05,C03 [b621d2e]=C01,C04 [d3e94af]=C15 [6481e22]=C16,C15 [e8fab12]=C13 [b12ce65]=C17 [6499fcc]=C19 [612e1d8]=C19 [677cedc]=C19 [e9e6e9e]=C19 [5a78e46]=C20,C12 [2ffab26]=C21 [6b232db]=C21 [fe0302b]=C21 [be4d68b]=C24 [bdf7e21]=C18 [b621d2e_d8985fd]=C05,C03,C04 )
 for c in "$@"; do
   python3 tools/seedtest.py mutants/revert_$c --skip-confirm --checks ${MAP[$c]} > mutants/revert_$c/result.json 2>mutants/revert_$c/err.txt
   echo "$c ${MAP[$c]} caught_by=$(python3 -c "import json;print(json.load(open('mutants/revert_$c/result.json')).get('caught_by'))" 2>/dev/null)"
